@@ -108,8 +108,8 @@ ADDENDA = {
  "C05": " Also decided: S4 (shared with C03) the parser hands every statement of a body or block to the tree; S2 the truthiness table of isTruthy for every value kind (C14's rule), since arms and loops depend on conditions only through it. Conditions group as documented (C01's ladder) and an assignment updates the innermost binding of a name (C03's environment shape), so nested loops over one name keep their own counters.",
  "C06": " Also decided (S0): the faults are detected — the name rules of C03 (undefined name, redeclaration), the call-protocol rules of C04 (callee kind, arity, built-in error) and C02's operator table (type mismatch, zero divisor, negative shift reported before the operation) hold on every path to the operation; detection of index, property and built-in faults is decided under C11, C12, C17. A built-in that performs input hands every read error on (end of input is a fault, not an empty line); the operator functions are stateless (C02/S5). No operation of the evaluator or a built-in can end in a Go panic instead of a diagnostic (C07's panic-site rules for interpreter and environment). Each node's Line is fed from the token the grammar associates with it (C01's wiring table). Shared in round 8: C02's failed-coercion rule (a type mismatch hidden by an ignored conversion error) and C01's fresh-node rule (a node shared by several occurrences carries the first occurrence's line).",
  "C07": " Also decided: P6 typed nil — no pointer whose provenance includes the nil constant is converted to an interface without a dominating nil test; P8 env-chain — Environment.Parent is fixed at construction, so the parent walk of Get/Assign is finite (C03's constructor rule). Value facts that no single dominating test gives are proved path-wise in loop-free code (every entry-to-use path passes an establishing test; contradictory paths pruned); down-counting loop counters are bounded above by induction. Maps keyed by interface values are only ever looked up or stored into with hashable dynamic values.",
- "C08": " Also decided: S6 — a node that assignment() would accept as a target is never handed on unchanged by a function that consumed further tokens around it (parenthesised targets are rejected); S7 — comments and strings end exactly where the language says (shared with C09); every name token stored as a declared variable or function name has been looked up in the reserved table, and found absent, on that path. The panic-site rules of C07 hold for every function of lexer, parser, token and ast (no abnormal termination of the front end); direct right recursion and iteration are the same language (Arden normal form on both sides of the grammar comparison). The scanner is given the program text unchanged (no replacer, trim or normalisation between reading the file and scanning). After construction the parser writes nothing but its position (no names, nodes or counts remembered from one construct to the next).",
- "C09": " Also decided: S7 extents — a // comment stops only at a newline or the end of input, a /* */ comment only behind its first */ lying behind the opener, a string only behind its first quote; unterminated forms are reported only at the end of input; the number path adds its token unless ParseFloat of the unconditionally transliterated lexeme fails; the reporter the scanner calls writes its diagnostic and raises the flag on every path. A word token is produced only where the input ends or the next rune is known not to continue a word (longest piece); a comparison on a truncated rune is not the comparison on the rune.",
+ "C08": " Also decided: S6 — a node that assignment() would accept as a target is never handed on unchanged by a function that consumed further tokens around it (parenthesised targets are rejected); S7 — comments and strings end exactly where the language says (shared with C09); every name token stored as a declared variable or function name has been looked up in the reserved table, and found absent, on that path. The panic-site rules of C07 hold for every function of lexer, parser, token and ast (no abnormal termination of the front end); direct right recursion and iteration are the same language (Arden normal form on both sides of the grammar comparison). The scanner is given the program text unchanged (no replacer, trim or normalisation between reading the file and scanning). After construction the parser writes nothing but its position (no names, nodes or counts remembered from one construct to the next). Which runes may stand in a name is decided for every code point (letter, mark or underscore, Go's unicode tables as reference).",
+ "C09": " Also decided: S7 extents — a // comment stops only at a newline or the end of input, a /* */ comment only behind its first */ lying behind the opener, a string only behind its first quote; unterminated forms are reported only at the end of input; the number path adds its token unless ParseFloat of the unconditionally transliterated lexeme fails; the reporter the scanner calls writes its diagnostic and raises the flag on every path. A word token is produced only where the input ends or the next rune is known not to continue a word (longest piece); a comparison on a truncated rune is not the comparison on the rune. Word characters are decided for every code point: isAlpha holds exactly for letters, marks and the underscore.",
  "C12": " Also decided (S4, shared with C15): the print statement hands the whole value to the one text function (fmt %v), no hand-written traversal. The functions that parse object syntax reject nothing of their own (C08's filter rule), so a literal yields its listed properties whatever they are called. Nothing outside eval's dispatch looks at the syntactic kind of an expression and every clause evaluates its operands on every successful path, so a property read fails wherever it stands (C14's and C16's rules).",
  "C13": " Also decided: listing the keys of an object is one pass over the shared ordering function on every call, nothing remembered between calls (C12's rule). The initialisers of an object literal run once each in source order, in one pass (C12's literal rule).",
  "C14": " Also decided (S4, shared with C16/C18): nothing outside eval's dispatch tests the syntactic kind of an operand, so no operand expression is rewritten between parsing and evaluation. A call evaluates the callee, then each argument once in order into a list of its own, and that list reaches the callee (C04's call protocol). Which operand a short-circuit operator guards follows the documented grouping (C01's ladder and associativity).",
